@@ -169,7 +169,6 @@ var gfPrims = map[string]gfPrim{
 	"strings.ToUpper":                       {"(Go.stringsToUpper cx $0)", false, nil},
 	"unicode.IsSpace":                       {"(Go.unicodeIsSpace cx $0)", false, nil},
 	gfMod + "/internal/util.RangeToIndexes": {"(rangeToIndexes $0 $1 $2)", false, nil},
-	gfMod + "/internal/tb.New":              {"(Block.new $0 $1)", false, nil},
 	// library functions that are not translated: the hand model's function
 	"(" + gfMod + ".Editor).Chars":                {"Editor.chars cx $0 $1 $2", true, nil},
 	"(" + gfMod + ".Editor).subEd":                {"Editor.subEd cx $0 $1 $2", true, nil},
